@@ -413,6 +413,43 @@ type Expectation struct {
 	// (their "cannot route" errors must come back to the injector).
 	RouteErrors   map[string]int
 	RouteRefusals map[string][]string
+
+	items []expItem // every expected delivery / visit, for ApplyAttempts
+}
+
+type expItem struct {
+	visit bool
+	key   string
+	tag   string
+	trail []string
+}
+
+// ApplyAttempts rewrites what is expected for the injection tag when its payload was sent several
+// times (Injector.SendPayload with Resend): every attempt reaches every path again, and the trail an
+// attempt's payload already carried when it was sent (left there by a mutating pipeline that worked
+// on the original in an earlier attempt) precedes the path's own trail.
+func (ex *Expectation) ApplyAttempts(tag string, attempts []Attempt) {
+	for _, it := range ex.items {
+		if it.tag != tag {
+			continue
+		}
+		m := ex.Deliveries
+		if it.visit {
+			m = ex.Visits
+		}
+		k := DeliveryID(it.key, tag, it.trail)
+		if m[k]--; m[k] <= 0 {
+			delete(m, k)
+		}
+		for _, a := range attempts {
+			var pre []string
+			for _, e := range a.Trail {
+				s, _ := StripInst(e)
+				pre = append(pre, s)
+			}
+			m[DeliveryID(it.key, tag, append(pre, it.trail...))]++
+		}
+	}
 }
 
 // maxPaths bounds the enumeration (a generator bug must not hang a check).
@@ -437,6 +474,7 @@ func (t *Topology) Expect() *Expectation {
 				trail = append(trail, id)
 			} else {
 				ex.Visits[DeliveryID(st.Key, tag, trail)]++
+				ex.items = append(ex.items, expItem{true, st.Key, tag, append([]string(nil), trail...)})
 			}
 			steps = append(steps, st)
 		}
@@ -445,6 +483,7 @@ func (t *Topology) Expect() *Expectation {
 				key := ExpKey(p.Signal, id)
 				ex.Paths = append(ex.Paths, Path{Tag: tag, Receiver: recv, Exporter: key, Steps: steps})
 				ex.Deliveries[DeliveryID(key, tag, trail)]++
+				ex.items = append(ex.items, expItem{false, key, tag, append([]string(nil), trail...)})
 				if cfgBool(t.Exporters[id], "fail", false) && !contains(ex.FailingReachable[tag], key) {
 					ex.FailingReachable[tag] = append(ex.FailingReachable[tag], key)
 				}
@@ -458,6 +497,7 @@ func (t *Topology) Expect() *Expectation {
 				tr := trail
 				if ci.Mode == "pass" {
 					ex.Visits[DeliveryID(ci.Key(), tag, trail)]++
+					ex.items = append(ex.items, expItem{true, ci.Key(), tag, append([]string(nil), trail...)})
 				} else {
 					st.Entry = ConnTrailEntry(id, ci.From, ci.To)
 					tr = append(append([]string(nil), trail...), st.Entry)
